@@ -62,38 +62,50 @@ func (s *unicastSubjectImpl[T]) Subscribe(destination Observer[T]) Subscription 
 func (s *unicastSubjectImpl[T]) SubscribeWithContext(subscriberCtx context.Context, destination Observer[T]) Subscription {
 	subscription := NewSubscriber(destination)
 
-	s.mu.Lock()
-	defer s.mu.Unlock()
-
-	switch s.status {
-	case KindNext:
-		// fallthrough
-	case KindError:
-		subscription.ErrorWithContext(s.err.A, s.err.B)
-		return subscription
-	case KindComplete:
-		subscription.CompleteWithContext(subscriberCtx)
-		return subscription
-	}
-
-	if s.observer != nil {
-		subscription.ErrorWithContext(subscriberCtx, ErrUnicastSubjectConcurrent)
-		return subscription
-	}
-
-	for _, v := range s.values {
-		subscription.NextWithContext(v.A, v.B)
-	}
-
-	s.values = []lo.Tuple2[context.Context, T]{}
-
-	s.observer = subscription
-
-	subscription.Add(func() {
+	registered := func() bool {
 		s.mu.Lock()
-		s.observer = nil
-		s.mu.Unlock()
-	})
+		defer s.mu.Unlock()
+
+		switch s.status {
+		case KindNext:
+			// fallthrough
+		case KindError:
+			subscription.ErrorWithContext(s.err.A, s.err.B)
+			return false
+		case KindComplete:
+			subscription.CompleteWithContext(subscriberCtx)
+			return false
+		}
+
+		if s.observer != nil {
+			subscription.ErrorWithContext(subscriberCtx, ErrUnicastSubjectConcurrent)
+			return false
+		}
+
+		for _, v := range s.values {
+			subscription.NextWithContext(v.A, v.B)
+		}
+
+		s.values = []lo.Tuple2[context.Context, T]{}
+
+		s.observer = subscription
+
+		return true
+	}()
+
+	if registered {
+		// Registered once the subject's mutex is released: when the subscriber is
+		// closed already (it unsubscribed while the backlog was replayed, e.g. a
+		// downstream Take), Add runs the teardown at once, and the teardown takes
+		// that mutex.
+		subscription.Add(func() {
+			s.mu.Lock()
+			if s.observer == subscription {
+				s.observer = nil
+			}
+			s.mu.Unlock()
+		})
+	}
 
 	return subscription
 }
